@@ -77,6 +77,8 @@ Diff(env, T, x, y) ==
     [] T.k = "self"   -> Diff(env, env[T.name], x, y)
     [] T.k = "ptr"    -> IF x.nil /\ y.nil THEN {}
                          ELSE IF x.nil \/ y.nil THEN {"nil@ptr"}
+                         \* behind a pointer the templates take another route to the user's method: own class
+                         ELSE IF HasMeth(T.e) THEN {IF d = "ignored-by-method" THEN "ignored-by-method@ptr" ELSE d : d \in Diff(env, T.e, x.v, y.v)}
                          ELSE Diff(env, T.e, x.v, y.v)
     [] T.k = "slice"  ->
          (IF x.nil # y.nil THEN {"nil@slice"} ELSE {}) \cup
